@@ -3,6 +3,7 @@ import Mkdb.Proofs.SessionInv9
 import Mkdb.Proofs.DbNames1
 import Mkdb.Proofs.SessionCrash3
 import Mkdb.Proofs.SessionCrash6
+import Mkdb.Proofs.SessionCrash8
 /-!
 # C17 — databases are isolated and survive any USE pattern
 
@@ -784,5 +785,135 @@ theorem C17_crash_operations_example :
     (runOps {} crashOps).map (fun s' => (s'.cur, rowsOf (exec s' (.use [100])).1 "d",
         rowsOf (exec s' (.use [101])).1 "e")) = some (none, some [[.int 5], [.int 6]], some []) :=
   crashOps_example
+
+
+/-! ### crashes: statements the selected database refuses
+
+A row statement or CREATE TABLE that the selected database refuses BEFORE it changes anything still reads
+pages, and `fetch` files every page it reads in the cache: the session after it is not the session before it
+(the `unchanged` alternative of `OkRouted` does not apply), and the selected database is no longer literally
+"reached from a checkpoint by accepted row statements" (`DbCrash`).  `SessCrashL s w` (Proofs/SessionCrash8)
+is `SessCrash'` with `DbCrashL` (Proofs/SessionCrash7) in the place of `DbCrash`: reached from the store of a
+checkpoint by a LIVE RUN - accepted row operations and steps in which only the cache grows (`Same`: every page
+and the whole header read as before) -, the log is the checkpoint's log followed by the records of the run,
+the data file is the checkpoint's.  That is all the crash theorems of C02 use of a run of statements. -/
+
+/-- **C17.crash_invariant_up_to_the_cache**: the crash invariant `SessCrash'` implies `SessCrashL`; and from a
+session that satisfies `SessCrashL` - e.g. after any number of refused statements - BOTH `crashRestart` (the
+process dies, no page of the selected database is flushed) and `restart` succeed: no recovery fails, the names
+are kept, nothing is selected, every database is checkpointed for THE SAME plain database `w`, and the session
+satisfies `SessCrash'` (hence `SessCrash`, `SessAbs`) again. -/
+theorem C17_crash_invariant_up_to_the_cache (s : Sess) (w : String → Spec.SDB) :
+    (SessCrash' s w → SessCrashL s w) ∧
+    (SessCrashL s w → SessAbs s w ∧
+      (∃ s', crashRestart s = some s' ∧ SessCrash' s' w ∧ names s' = names s ∧ s'.cur = none ∧
+        ∀ p ∈ s'.dbs, CkptNS p.2 (w p.1)) ∧
+      (∃ s', restart s = some s' ∧ SessCrash' s' w ∧ names s' = names s ∧ s'.cur = none ∧
+        ∀ p ∈ s'.dbs, CkptNS p.2 (w p.1))) :=
+  ⟨fun h => h.toL, fun h => ⟨h.abs, crashRestart_sessCrashL h, restart_sessCrashL h⟩⟩
+
+/-- non-vacuity: the session `sessT` (CREATE DATABASE d; USE d; CREATE TABLE t (a INT), `d` selected) -/
+example : SessCrashL sessT (fun _ => sdbA0) := okOps2_sessT_example.1.inv
+
+/-- **C17.refused_statement_keeps_the_crash_invariant**: a CREATE TABLE / INSERT / UPDATE / DELETE that the
+selected database refuses before it changes anything, for one of the reasons `StmtRefusalC` lists - CREATE
+TABLE of an existing table or of a catalog name, with a column name used twice or a VARCHAR length beyond 32
+bits; INSERT into an unknown table, with a column list naming an unknown column or one column twice, or whose
+FIRST row has the wrong number of values or a value its column does not accept (type, integer range); UPDATE
+with a column source, of an unknown table, with an unknown or repeated SET column, a WHERE that cannot be
+evaluated, or a first selected row that cannot be rewritten; DELETE of an unknown table or with a WHERE that
+cannot be evaluated - returns an error, is refused by the plain model too, and KEEPS the crash invariant
+`SessCrashL` for THE SAME plain databases `w`: a crash right after it (or after any number of them) loses
+nothing (`C17_crash_invariant_up_to_the_cache`).  If the selected database was checkpointed it still is (so a
+CREATE TABLE may follow).  `hbad` is asked for whatever catalog description the database has (`DbInv`; only
+the refusal "CREATE TABLE sys_pages" looks at it).  NOT covered: an INSERT whose first row is TOO LARGE - it is
+refused inside `btInsert`, after the row-id and LSN counters moved (`C17_oversized_first_row_example`) - and a
+refusal at a later row (`C17_crash_loses_rows_of_a_refused_insert`: there the statement is false). -/
+theorem C17_refused_statement_keeps_the_crash_invariant (s : Sess) (w : String → Spec.SDB) (h : SessCrashL s w)
+    (n : String) (hc : s.cur = some n) (db : DB) (hg : getDB s n = some db) (st : Stmt)
+    (hbad : ∀ pt sch tbls, DbInv db (w n) pt sch tbls → StmtRefusalC (w n) pt st) :
+    Spec.specStmt (w n) st = none ∧ (∃ k, (exec s st).2 = Out.err k) ∧ SessCrashL (exec s st).1 w ∧
+    ∃ db', getDB (exec s st).1 n = some db' ∧ (CkptNS db (w n) → CkptNS db' (w n)) :=
+  refused_sessCrashL h n hc db hg st hbad
+
+/-- non-vacuity: INSERT INTO u VALUES (1) - no table `u` - and INSERT INTO t VALUES ('x') - `a` is an INT - on
+`sessT` -/
+example : SessCrashL sessT (fun _ => sdbA0) ∧ sessT.cur = some "d" ∧ getDB sessT "d" = some tableDB ∧
+    (∀ pt, StmtRefusalC sdbA0 pt insUnknown) ∧ (∀ pt, StmtRefusalC sdbA0 pt insBadValue) :=
+  ⟨okOps2_sessT_example.1.inv, rfl, by simp [getDB, sessT], refusalC_insUnknown, refusalC_insBadValue⟩
+
+/-- **C17.histories_with_crashes_and_refused_statements**: `C17_histories_with_crashes` with statements the
+selected database refuses.  From the EMPTY session, for every list of operations - statements, `restart`,
+crash - that meets the side conditions `OkOps2`: `runOps {} ops` is `some s'` - NO recovery fails, however
+many crashes and restarts the list holds -, and `s'` satisfies the crash invariant `SessCrashL` (so `SessAbs`:
+what a reader sees of every database, `C17_contents_are_what_a_reader_sees`) for the plain databases
+`worldOps {} (fun _ => []) ops` of the acknowledged statements - a refused statement changes none -; one more
+crash or restart succeeds too and preserves them (then `SessCrash'` holds again).  `OkOps2` asks NOTHING of
+CREATE DATABASE, USE, SHOW DATABASES, SELECT, `restart`, crash; a CREATE TABLE / INSERT / UPDATE / DELETE is
+(1) accepted by the plain model of the selected database with room (`StmtRoom`), a CREATE TABLE only right
+after USE of another database / restart / crash / another CREATE TABLE, or (2) leaves the session as it is and
+is refused by the plain model (no database selected), or (3) is refused by the selected database for one of
+the reasons `StmtRefusalC` lists (`C17_refused_statement_keeps_the_crash_invariant`).  Every list that meets
+`OkOps` meets `OkOps2` (`OkOps.toOkOps2`).  EXCLUDED: an INSERT whose first row is too large (refused after
+the counters moved: not proved, and not false in the computed `C17_oversized_first_row_example`), statements
+refused at a later row (false: `C17_crash_loses_rows_of_a_refused_insert`), CREATE TABLE after row statements
+with no USE of another database / restart / crash between them. -/
+theorem C17_histories_with_crashes_and_refused_statements (ops : List SOp)
+    (hok : OkOps2 {} (fun _ => []) true ops) :
+    ∃ s', runOps {} ops = some s' ∧ SessCrashL s' (worldOps {} (fun _ => []) ops) ∧
+      SessAbs s' (worldOps {} (fun _ => []) ops) ∧
+      (cleanOps {} (fun _ => []) true ops = true → ∀ p ∈ s'.dbs, CkptNS p.2 (worldOps {} (fun _ => []) ops p.1)) ∧
+      (∃ s'', crashRestart s' = some s'' ∧ SessCrash' s'' (worldOps {} (fun _ => []) ops) ∧ names s'' = names s') ∧
+      (∃ s'', restart s' = some s'' ∧ SessCrash' s'' (worldOps {} (fun _ => []) ops) ∧ names s'' = names s') := by
+  obtain ⟨s', e, h'⟩ := runOps_cinvL ops {} _ true (cinvL_empty _ _) hok
+  obtain ⟨s1, e1, k1, n1, _⟩ := crashRestart_sessCrashL h'.inv
+  obtain ⟨s2, e2, k2, n2, _⟩ := restart_sessCrashL h'.inv
+  exact ⟨s', e, h'.inv, h'.inv.abs, h'.ck, ⟨s1, e1, k1, n1⟩, ⟨s2, e2, k2, n2⟩⟩
+
+/-- non-vacuity: CREATE DATABASE d; USE d; INSERT INTO u VALUES (1) - refused by the selected database, which
+has no table; its cache has grown -; crash; USE d; restart -/
+example : OkOps2 {} (fun _ => []) true
+    [.stmt (.createDatabase [100]), .stmt (.use [100]), .stmt insUnknown, .crash, .stmt (.use [100]), .restart] :=
+  okOps2_example
+
+/-- **C17.histories_with_crashes_and_refused_statements_from**: the same from any session that satisfies
+`CInvL s w clean` (`SessCrashL s w`, and if the flag is set every database is checkpointed; `CInv` implies
+it). -/
+theorem C17_histories_with_crashes_and_refused_statements_from (s : Sess) (w : String → Spec.SDB) (clean : Bool)
+    (ops : List SOp) (h : CInvL s w clean) (hok : OkOps2 s w clean ops) :
+    ∃ s', runOps s ops = some s' ∧ SessCrashL s' (worldOps s w ops) ∧ SessAbs s' (worldOps s w ops) ∧
+      (cleanOps s w clean ops = true → ∀ p ∈ s'.dbs, CkptNS p.2 (worldOps s w ops p.1)) := by
+  obtain ⟨s', e, h'⟩ := runOps_cinvL ops s w clean h hok
+  exact ⟨s', e, h'.inv, h'.inv.abs, h'.ck⟩
+
+/-- non-vacuity: from `sessT`: INSERT INTO u VALUES (1) - no such table -; INSERT INTO t VALUES ('x') - wrong
+type, issued on the database the first refusal left -; crash; USE d; restart -/
+example : CInvL sessT (fun _ => sdbA0) false ∧ OkOps2 sessT (fun _ => sdbA0) false
+    [.stmt insUnknown, .stmt insBadValue, .crash, .stmt (.use [100]), .restart] := okOps2_sessT_example
+
+/-- **C17.refused_statements_example** (computed): CREATE DATABASE d; USE d; CREATE TABLE t (a INT); INSERT INTO
+u VALUES (1) - refused: no table `u` -; INSERT INTO t VALUES ('x') - refused: `'x'` is not an INT -; INSERT
+INTO t VALUES (5) - accepted -; crash with no page flushed since CREATE TABLE.  Outcomes 0 = accepted, 1 =
+refused.  Recovery succeeds; nothing is selected; a reader of `d.t` sees the row `(5)`. -/
+theorem C17_refused_statements_example :
+    (outsOps {} refusedOps).map (·.map outCode) = some [0, 0, 0, 1, 1, 0] ∧
+    (runOps {} refusedOps).map (fun s' => (s'.cur, rowsOf (exec s' (.use [100])).1 "d")) =
+      some (none, some [[.int 5]]) := refusedOps_example
+
+/-- **C17.oversized_first_row_example** (computed; the refusal the theorems above leave out): CREATE DATABASE d;
+USE d; CREATE TABLE t (b VARCHAR(5000)); INSERT INTO t VALUES ('xx…x') with 1100 bytes - refused with
+`rowTooLarge` INSIDE the tree insert, after the counters moved -; INSERT INTO t VALUES ('x') - accepted.
+Before the crash: row-id counter 12, LSN counter 12, the header in the data file says 10 and 10, the log holds
+one record with LSN 11 and row id 12 (LSN 10 and row id 11 went to the refused row, which no log record
+mentions).  After the crash: recovery succeeds, the counters are 12 and 12 again, a reader sees `('x')`.  The
+crash theorems are not false here; they are not proved for this refusal. -/
+theorem C17_oversized_first_row_example :
+    (outsOps {} oversizedOps).map (·.map outCode) = some [0, 0, 0, 1, 0] ∧
+    (runOps {} oversizedOps.dropLast).map (fun s' => (getDB s' "d").map fun db =>
+        [db.store.hdr.lastKey, db.store.hdr.nextLSN, db.store.dhdr.lastKey, db.store.dhdr.nextLSN] ++
+          db.wal.flatMap fun r => [r.lsn, r.cell]) = some (some [12, 12, 10, 10, 11, 12]) ∧
+    (runOps {} oversizedOps).map (fun s' => ((getDB s' "d").map fun db =>
+        (db.store.hdr.lastKey, db.store.hdr.nextLSN), rowsOf (exec s' (.use [100])).1 "d")) =
+      some (some (12, 12), some [[.str [120]]]) := oversizedOps_example
 
 end Mkdb.Session
